@@ -1,5 +1,6 @@
 import TemprenModel.Props.C05Closed
 import TemprenModel.Props.C03Spec
+import TemprenModel.Props.C01
 /-!
 # C02 (first sentence, at the level of paths) — a reported success means the plan was applied, for EVERY plan
 
@@ -96,6 +97,15 @@ theorem stop_success_paths (base : FS) (hw : WF base) (hl : LinkFree base)
       obtain ⟨e, he, hme⟩ := List.mem_map.mp ((hperm.mem_iff).mpr hm)
       exact ⟨e, he, by rw [← hk, ← hme]; rfl⟩
   rw [hd, hs]
+
+/-- … and, for any tree, file list, plan and order: the well-formed final tree of a `stop` run holds exactly the initial
+    leaves — identity, kind and content (`C01.no_loss`, restated next to `stop_success_paths`: together they say *which*
+    paths exist and *what* the tree holds) -/
+theorem stop_run_leaves (base : FS) (hw : WF base) (files : List FileRec) (gen : Nat → Gen) :
+    leaves (execute realNameRenamer { fs := base } files gen .stop []).1.st.fs = leaves base ∧
+    WF (execute realNameRenamer { fs := base } files gen .stop []).1.st.fs := by
+  have := C01.no_loss false base hw none files gen .stop [] (Or.inl rfl)
+  exact ⟨this.1, this.2.2⟩
 
 /-- non-vacuity of the side conditions: two different existing entries -/
 example :
